@@ -507,3 +507,65 @@ def stale_derived_flag(ctx: Ctx, modules: tp.Sequence[str] = ('type_blocks', 'fr
             else:
                 ctx.ok(R, f, a, f'`{arr}` is not changed between the capture of `{flag}` and its tests', key=key)
     ctx.require(n >= 10, 'captured array facts that are tested later')
+
+
+def out_parameter_written(ctx: Ctx) -> None:
+    R = 'I.out-parameter-written'
+    ctx.rule(R, 'a reduction helper that accepts `out=` is called by TypeBlocks.ufunc_axis_skipna as a statement — `func(array=b, axis=axis, out=out[pos:end])` — and its '
+             'return value is dropped: on every path on which `out` may be given, each value-return of such a helper either hands `out=out` to the call that '
+             'produces the value, or has stored the value into `out`; a path that only returns the value leaves that slice of the (np.empty) result uninitialised '
+             '(any() / all() of a zero-row or datetime 2-D block in a multi-block Frame returns garbage)', floor=5)
+    prog = ctx.prog
+    n = 0
+    for f in prog.top_funcs():
+        if f.module.short != 'util' or 'out' not in f.params:
+            continue
+
+        class C(flow.Client):
+            def __init__(self):
+                self.bad: tp.List[ast.AST] = []
+                self.seen = 0
+
+            def join(self, a, b):
+                return a & b
+
+            def refine(self, atom, st, truth):
+                t = norm(atom)
+                if t == 'out is None' and truth:
+                    return st | {'none'}
+                if t == 'out is not None' and not truth:
+                    return st | {'none'}
+                # a 1-D input reduces to an element: the caller takes the return value (`out[pos] = func(array=b, axis=axis)`), `out` is only given for 2-D blocks
+                if truth and isinstance(atom, ast.Compare) and len(atom.ops) == 1 and isinstance(atom.ops[0], ast.Eq) and isinstance(atom.left, ast.Attribute) \
+                        and atom.left.attr == 'ndim' and norm(atom.comparators[0]) == '1':
+                    return st | {'none'}
+                return st
+
+            def on_stmt(self, s, st):
+                tg = s.targets[0] if isinstance(s, ast.Assign) and len(s.targets) == 1 else (s.target if isinstance(s, ast.AugAssign) else None)
+                if isinstance(tg, ast.Subscript) and isinstance(tg.value, ast.Name) and tg.value.id == 'out':
+                    return st | {'stored'}
+                return st
+
+            def on_return(self, s, st):
+                if s.value is None:
+                    return
+                self.seen += 1
+                v = s.value
+                forwards = isinstance(v, ast.Call) and any(k.arg == 'out' and norm(k.value) == 'out' for k in v.keywords)
+                returns_out = isinstance(v, ast.Name) and v.id == 'out'
+                if forwards or returns_out or 'stored' in st or 'none' in st:
+                    return
+                self.bad.append(s)
+        c = C()
+        flow.Engine(c).run(f.node.body, frozenset())
+        if not c.seen:
+            continue
+        n += c.seen
+        key = f'{f.name}:out'
+        if c.bad:
+            ctx.bad(R, f, c.bad[0], f'`{norm(c.bad[0])[:60]}` returns a value without `out=out` and without storing it into `out`: when the caller gave `out` (and drops the '
+                    f'return value) that part of the result stays uninitialised ({len(c.bad)} such return(s))', key=key)
+        else:
+            ctx.ok(R, f, f.node, f'{c.seen} value-return(s): each forwards `out` or has written it', key=key)
+    ctx.require(n >= 8, 'value-returns of helpers that take `out`')
